@@ -190,6 +190,7 @@ func cmdCheck(args []string) {
 	propsPath := fs.String("props", "/verif/props/props.json", "property configuration")
 	findingsPath := fs.String("findings", "/verif/known_findings.txt", "known findings")
 	outDir := fs.String("out", "/verif", "where evidence/ and out/ live")
+	lemmaDir := fs.String("lemmas", "/verif/spec/lemmas", "lemma files")
 	fs.Parse(args)
 	if fs.NArg() < 1 {
 		fmt.Println("usage: govc check [flags] <property id>")
@@ -266,6 +267,7 @@ func cmdCheck(args []string) {
 	var solverMs int64
 	var samples []oblSample
 	canaryTotal, canaryRefuted, coverTotal, coverOK := 0, 0, 0, 0
+	var coverFail []*Obligation
 	sort.Slice(res.obls, func(i, j int) bool { return res.obls[i].Name < res.obls[j].Name })
 	for _, o := range res.obls {
 		switch o.Kind {
@@ -283,8 +285,7 @@ func cmdCheck(args []string) {
 			if o.Status != "unsat" {
 				coverOK++
 			} else {
-				fmt.Printf("VACUITY: %s unreachable under the contract (%s)\n", o.Name, o.Pos)
-				broken = true
+				coverFail = append(coverFail, o)
 			}
 			continue
 		}
@@ -312,6 +313,27 @@ func cmdCheck(args []string) {
 			samples = append(samples, oblSample{o.Name, o.Pos, o.Solver, o.Ms, "discharged"})
 		}
 	}
+	// an unreachable return is a vacuity alarm -- unless an obligation of that function failed
+	// (the failed goal is assumed afterwards, which legitimately cuts the path)
+	failedFn := map[string]bool{}
+	for _, o := range violations {
+		failedFn[o.Func] = true
+	}
+	for _, k := range known {
+		for _, o := range res.obls {
+			if o.Name == k {
+				failedFn[o.Func] = true
+			}
+		}
+	}
+	for _, o := range coverFail {
+		if failedFn[o.Func] {
+			coverOK++
+			continue
+		}
+		fmt.Printf("VACUITY: %s unreachable under the contract (%s)\n", o.Name, o.Pos)
+		broken = true
+	}
 	// vacuity: counts and required functions
 	if obligations < pc.MinObl {
 		fmt.Printf("VACUITY: only %d obligations generated for %s (floor %d)\n", obligations, id, pc.MinObl)
@@ -337,7 +359,7 @@ func cmdCheck(args []string) {
 	for _, lf := range pc.Lemmas {
 		lemmaTotal++
 		name := "lemma:" + id + ":" + strings.TrimSuffix(filepath.Base(lf), ".smt2")
-		st, solver, ms := runLemma(filepath.Join(*outDir, "spec/lemmas", lf), timeout)
+		st, solver, ms := runLemma(filepath.Join(*lemmaDir, lf), timeout)
 		obligations++
 		if st == "unsat" {
 			lemmaOK++
@@ -419,11 +441,11 @@ func cmdCheck(args []string) {
 	os.WriteFile(filepath.Join(*outDir, "evidence", id+".json"), b, 0o644)
 	fmt.Printf("%s tier=%s functions=%d obligations=%d discharged=%d violations=%d known=%d not_claimed=%d canaries=%d/%d cover=%d/%d wall=%.1fs\n",
 		id, *tier, len(funcs), obligations, discharged, len(violations), len(known), len(notClaimedList), canaryRefuted, canaryTotal, coverOK, coverTotal, wall)
-	if broken {
-		os.Exit(2)
-	}
 	if len(violations) > 0 {
 		os.Exit(1)
+	}
+	if broken {
+		os.Exit(2)
 	}
 }
 
